@@ -327,8 +327,11 @@ struct Scen {
     pause_before: Vec<i64>,
 }
 
-fn load(sc: &Value) -> Scen {
+/// `addr`: number the addresses are derived from (default: the scenario id; the decode1090 segment
+/// mixes scenarios of several families in one run and numbers them itself)
+fn load(sc: &Value, addr: Option<i64>) -> Scen {
     let id = sc["id"].as_i64().expect("id");
+    let addr = addr.unwrap_or(id);
     let mut refs = vec![];
     if let Some(a) = sc["refs"].as_array() {
         for r in a {
@@ -347,7 +350,7 @@ fn load(sc: &Value) -> Scen {
         ac: geti(r, 0), ts_ms: geti(r, 1), kind: geti(r, 2), par: geti(r, 3), l: geti(r, 4), m: geti(r, 5),
         yz: geti(r, 6) as u64, xz: geti(r, 7) as u64, u: geti(r, 8),
     }).collect();
-    let frames: Vec<Vec<u8>> = reports.iter().enumerate().map(|(k, r)| frame(id, r, k)).collect();
+    let frames: Vec<Vec<u8>> = reports.iter().enumerate().map(|(k, r)| frame(addr, r, k)).collect();
     let fresh = frames.iter().map(|f| parse(f)).collect();
     let pause_before = sc["pause_before"].as_array().map(|a| a.iter().filter_map(|x| x.as_i64()).collect()).unwrap_or_default();
     Scen { id, fam: sc["fam"].as_str().unwrap_or("").to_string(), refs, rx_of, reports, frames, fresh, pause_before }
@@ -444,7 +447,7 @@ fn fail(msg: String) -> ! {
 
 /// decode1090, one run per receiver reference (scenarios use disjoint addresses)
 fn run_d1090(exe: &str, scenarios: &[Value], tr: &mut Trace, tmp: &str) -> Value {
-    let scens: Vec<Scen> = scenarios.iter().map(load).collect();
+    let scens: Vec<Scen> = scenarios.iter().enumerate().map(|(i, v)| load(v, Some(i as i64 + 1))).collect();
     let mut groups: BTreeMap<String, Vec<usize>> = BTreeMap::new();
     for (i, sc) in scens.iter().enumerate() {
         // the reference only matters to surface reports: scenarios without any share one run
@@ -507,7 +510,7 @@ fn run_d1090(exe: &str, scenarios: &[Value], tr: &mut Trace, tmp: &str) -> Value
 fn run_frames(scenarios: &[Value], out: &str) {
     let mut tr = Trace::create(out);
     for v in scenarios {
-        let sc = load(v);
+        let sc = load(v, None);
         let refs: Vec<Value> = sc.refs.iter().map(|&r| {
             let s = ref_str(r);
             let ok = match Position::from_str(&s) {
@@ -534,7 +537,7 @@ fn run_records(scenarios: &[Value], records: &[Value], tr: &mut Trace) -> Value 
     let mut st = json!({"scenarios": 0, "records": 0, "unknown_frames": 0});
     let by_id: HashMap<i64, &Value> = records.iter().map(|r| (r["id"].as_i64().unwrap(), r)).collect();
     for v in scenarios {
-        let sc = load(v);
+        let sc = load(v, None);
         let Some(rec) = by_id.get(&sc.id) else { continue };
         let mut answers = vec![];
         let t0 = rec["recs"].as_array().and_then(|a| a.first()).and_then(|r| r["timestamp"].as_f64()).unwrap_or(0.0);
